@@ -755,8 +755,8 @@ class Response(_SansIOResponse):
             # wsgiref.
             if "date" not in self.headers:
                 self.headers["Date"] = http_date()
-            is206 = self._process_range_request(environ, complete_length, accept_ranges)
-            if not is206 and not is_resource_modified(
+            # Preconditions are evaluated before the Range header (RFC 9110 13.2.2).
+            if not is_resource_modified(
                 environ,
                 self.headers.get("etag"),
                 None,
@@ -766,6 +766,8 @@ class Response(_SansIOResponse):
                     self.status_code = 412
                 else:
                     self.status_code = 304
+            else:
+                self._process_range_request(environ, complete_length, accept_ranges)
             if (
                 self.automatically_set_content_length
                 and "content-length" not in self.headers
